@@ -319,7 +319,7 @@ impl TomlReader {
             .stdin(Stdio::piped())
             .stdout(Stdio::piped())
             .spawn()
-            .expect("spawn python3 tomlread.py");
+            .expect("harness: spawn python3 tomlread.py");
         let stdin = child.stdin.take().unwrap();
         let stdout = BufReader::new(child.stdout.take().unwrap());
         TomlReader { child, stdin, stdout }
